@@ -38,6 +38,8 @@ func main() {
 		cmdCheck(os.Args[2:])
 	case "replay":
 		cmdReplay(os.Args[2:])
+	case "leaves":
+		cmdLeaves(os.Args[2:])
 	case "selftest":
 		cmdSelftest(os.Args[2:])
 	default:
